@@ -124,7 +124,7 @@ def mc_cfg(family, cfgs, bounds, invariants, emit=False, view=True, emit_all=Fal
     if properties:
         lines.append("PROPERTIES " + " ".join(properties))
     if view:
-        lines.append("VIEW View")
+        lines.append("VIEW " + (view if isinstance(view, str) else "View"))
     lines.append("CHECK_DEADLOCK FALSE")
     return "\n".join(lines) + "\n"
 
@@ -221,7 +221,7 @@ def gen_exhaustive(family, cfgs, bounds, wd, timeout=1800, tail_k=None, seed=1):
     Witnesses that are prefixes of other witnesses are dropped (the longer one passes through the
     same states) unless they have such a tail; the tail (all of it, or a seeded sample of tail_k
     operations) is appended to the witness."""
-    cfg = mc_cfg(family, cfgs, bounds, ["EmitHist"], emit=True, view=True, emit_all=True)
+    cfg = mc_cfg(family, cfgs, bounds, ["EmitHist"], emit=True, view="ViewGen", emit_all=True)
     rc, out = tlc(wd, "MCGrants", cfg, ["-workers", str(NCPU)], heap="12g", timeout=timeout, cfg_name=f"genx_{family}.cfg")
     hs = parse_hist(out)
     if not hs:
